@@ -419,6 +419,10 @@ def run(F, rep, tier):
     rep.attempt(rule_r7, F, rep)
     from . import c07
     rep.attempt(c07.rule_r5, F, rep)      # super / +: inside a field resolve from the layer the field was found in
+    # late binding: a derived object re-evaluates inherited fields against itself (fresh thunk / environment cells on clone)
+    r12 = rep.attempt(c07.rule_r1_r2_objects, F, rep)
+    if r12:
+        rep.attempt(c07.rule_r2_clones, F, rep, r12[1])
     from . import visibility
     rep.attempt(visibility.rule, F, rep, "C07.R4")
     rep.attempt(visibility.rule_partition, F, rep, "C07.R6")
